@@ -381,6 +381,21 @@ func (e *SpecEnv) evalCall(x *ast.CallExpr) Val {
 		return e.quantSort(x, "Real", func(v string) Val { return realV(v) })
 	case "forallI":
 		return e.quantSort(x, "Int", func(v string) Val { return intV(v) })
+	case "forallG":
+		return e.quantSort(x, "R_GradContext", func(v string) Val {
+			return Val{K: KRef, T: v, Sort: "R_GradContext", Go: e.run.ptrTypeByName("GradContext")}
+		})
+	case "forallE":
+		return e.quantSort(x, "R_backwardEdge", func(v string) Val {
+			return Val{K: KRef, T: v, Sort: "R_backwardEdge", Go: e.run.ptrTypeByName("backwardEdge")}
+		})
+	case "anyOf":
+		v := arg(0)
+		if v.K != KRef {
+			specFail("anyOf of %s", v)
+		}
+		e.run.needData()
+		return Val{K: KRef, T: sx(e.run.boxFn(v.Sort, "Data"), v.T), Sort: "Data"}
 	case "forallT":
 		return e.quantSort(x, "T", func(v string) Val { return Val{K: KRef, T: v, Sort: "T"} })
 	case "imp":
